@@ -1400,6 +1400,13 @@ M('C04', 'ChargeInfo.__setstate__ caches the unmasked mod (round-5 seed b)', CH,
   "        self._mask = np.not_equal(mod, 1)  # where we need to take modulo in :meth:`make_valid`\n        self._mod_masked = mod.copy()  # don't share with `_mod`\n        self.names = names\n\n    def save_hdf5",
   'STATE-derived-agree')
 
+M('C05', 'svd_robust: the gesvd fallback loses full_matrices (round-5 seed a)', 'tenpy/linalg/svd_robust.py',
+  "    return scipy.linalg.svd(a, full_matrices, compute_uv, overwrite_a, check_finite, 'gesvd')", "    return scipy.linalg.svd(a, compute_uv=compute_uv, overwrite_a=overwrite_a, check_finite=check_finite, lapack_driver='gesvd')",
+  'FACT-fallback-forwards')
+M('C05', 'svd_robust: the gesvd fallback written with keywords (twin)', 'tenpy/linalg/svd_robust.py',
+  "    return scipy.linalg.svd(a, full_matrices, compute_uv, overwrite_a, check_finite, 'gesvd')", "    return scipy.linalg.svd(a, full_matrices=full_matrices, compute_uv=compute_uv, overwrite_a=overwrite_a, check_finite=check_finite, lapack_driver='gesvd')",
+  None, expect='silent')
+
 # ---------------------------------------------------------------- C16 / C19
 M('C16', 'GMRES restart: relative residual norm used for normalisation (round-3 seed b)', KRY,
   """        self.total_error.append([npc.norm(self.rs[-1]) / self.b_norm])
